@@ -310,6 +310,24 @@ func main() {
 	emit(has("defaultResolutionCache"), "defaultResolutionCache",
 		"func VerifNewCache() ResolutionCache { return defaultResolutionCache() }",
 		"func VerifNewCache() ResolutionCache { return nil }")
+	// every exported, non-interface, non-generic named type: decode targets for the totality check
+	ex.WriteString("// VerifTypes returns a constructor for every exported data type of the package.\nfunc VerifTypes() map[string]func() interface{} {\n\treturn map[string]func() interface{}{\n")
+	for _, n := range scope.Names() {
+		tn, ok := scope.Lookup(n).(*types.TypeName)
+		if !ok || !tn.Exported() || tn.IsAlias() {
+			continue
+		}
+		named, ok := tn.Type().(*types.Named)
+		if !ok || named.TypeParams().Len() > 0 {
+			continue
+		}
+		switch named.Underlying().(type) {
+		case *types.Interface, *types.Signature, *types.Chan:
+			continue
+		}
+		fmt.Fprintf(&ex, "\t\t%q: func() interface{} { return new(%s) },\n", n, n)
+	}
+	ex.WriteString("\t}\n}\n\n")
 	ex.WriteString("// VerifHas tells which private entry points the export file could bind.\nvar VerifHas = map[string]bool{\n")
 	var en []string
 	for k := range exports {
